@@ -203,3 +203,23 @@ package blob
 //@   loop 3: invariant len(appShares) == len(row.Shares) - (index - deref(row.Proof).start)
 //@   loop 3: invariant len(appShares) > 0 ==> appShares == row.Shares[index - deref(row.Proof).start:]
 //@   loop 4: invariant err != nil
+
+// C11 / C12: fetching by commitment selects a blob exactly when its commitment equals the requested one,
+// byte for byte and in length - the three lookups (Get, GetProof, Included) all go through this predicate.
+//@ func (*Blob).compareCommitments
+//@   property C11 C12
+//@   requires b != nil
+//@   ensures result <==> bytesEq(b.Commitment, com)
+
+//@ func (*Service).Get$2
+//@   property C11
+//@   requires blob != nil
+//@   ensures result <==> bytesEq(blob.Commitment, commitment)
+//@ func (*Service).GetProof$2
+//@   property C11 C12
+//@   requires blob != nil
+//@   ensures result <==> bytesEq(blob.Commitment, commitment)
+//@ func (*Service).Included$2
+//@   property C11 C12
+//@   requires blob != nil
+//@   ensures result <==> bytesEq(blob.Commitment, commitment)
